@@ -49,11 +49,6 @@ def keyOf (ty id : String) : Option Key := do
 
 def isCompound (k : Key) : Bool := k.ty < 50
 
-def insertableVal (ty : Nat) (n : Int) : Option Val :=
-  if ty ≤ 5 ∨ ty = 50 then some (.int n)
-  else if 10 ≤ ty ∧ ty < 22 then some (.asset n "" [])
-  else none
-
 def nameOfTy (ty : Nat) : String :=
   if ty < 3 then s!"S{ty}" else if ty = 3 then "N0" else if ty = 4 then "AN" else if ty = 5 then "AS"
   else if 10 ≤ ty ∧ ty < 22 then s!"M{(ty - 10) / 2}{(ty - 10) % 2}"
